@@ -13,4 +13,4 @@ TECHNIQUE = "Coq proof (visibility invariant over operation lists) of a hand-wri
 RULE = ("histories in which every append (single/multi-event, valid, rejected for version/key/sequence, failing half-way on a bad timestamp, too big) is followed at once by "
         "event lookup / partition scan / stream scan of the acknowledged events, with rollovers (128 KiB segments) and reopen; non-trivial = >=2 appends, one succeeded")
 monitor_e = storelib.monitor_kinds({"RE", "RT", "SS", "SP", "RO"}, "acked", durable=True)
-ENV = {"LD_PRELOAD": storelib.ensure_svio()}
+ENV = {"LD_PRELOAD": storelib.ensure_svio(), "SV_SYNC_MS": "50", "SV_HISTORIES_QUICK": "70", "SV_HISTORIES_THOROUGH": "400"}
